@@ -104,9 +104,6 @@ void h_sign_gates(void) {
     if (ret == 0 && g_gr_n == 1 && !b32_lt(blind, RP_N)) REACH("sign refuses blind >= n after seeding");
 }
 
-#ifndef EXPCASE
-#define EXPCASE 0
-#endif
 void h_sign_header(void) {
     INPUT(size_t, plen_in); INPUT(uint64_t, min_value); INPUT(uint64_t, value); INPUT(int, exp); INPUT(int, min_bits);
     INPUT_ARR(unsigned char, hblind, 32); INPUT_ARR(unsigned char, hnonce, 32); INPUT(secp256k1_ge, commit); INPUT(secp256k1_ge, genp);
@@ -124,7 +121,9 @@ void h_sign_header(void) {
         /* the header is complete when the random stream is seeded: g_gr_hdr[0..g_gr_len) are the bytes proof[0..g_gr_len) at that moment */
         for (j = 0; j < 16; j++) hb[j] = (j < 10 && j < g_gr_len) ? g_gr_hdr[j] : 0;
         /* CASE SPLIT on the exponent field written (not an input restriction); EXPCASE 0 also carries the exact-value header */
+#ifdef EXPCASE
         __CPROVER_assume(((hb[0] & 64) ? (hb[0] & 31) : 0) == EXPCASE);
+#endif
         /* decode with the real header parser, for every total length the finished proof can have */
         __CPROVER_assume(plen2 >= 65 && plen2 >= g_gr_len && plen2 <= plen_in);
         hret = secp256k1_rangeproof_getheader_impl(&off, &hexp, &hman, &hscale, &hmin, &hmax, hb, plen2);
@@ -139,10 +138,10 @@ void h_sign_header(void) {
         if (ret == 1) {
             __CPROVER_assert(g_pe_exp == (hexp < 0 ? 0 : hexp), "C09 sign header: key expansion uses the header exponent");
             __CPROVER_assert(plen == off + ((v_rings(hman) - 1 + 7) / 8) + 32 * (v_rings(hman) - 1) + 32 + 32 * v_npub(hman), "C09 sign header: proof length is exactly what the verifier expects for this header");
-            if (hman == MAXMAN && hexp == EXPCASE) REACH("sign header: largest mantissa");
-            if (hmin != 0 && hexp == EXPCASE) REACH("sign header: with public minimum");
+            if (hman == MAXMAN) REACH("sign header: largest mantissa");
+            if (hmin != 0 && hexp > 0) REACH("sign header: with public minimum and exponent");
         }
-#if EXPCASE == 0
+#if !defined(EXPCASE) || EXPCASE == 0
         if (hman == 0) REACH("sign header: exact value");
 #endif
     }
